@@ -27,10 +27,11 @@ type TRef struct {
 	ID   int  `json:"id"`             // 0 = empty ID
 	NoFn bool `json:"nofn,omitempty"` // nil function
 	Fresh bool `json:"fresh,omitempty"` // a new *Task object with the same ID and function
+	Src   string `json:"src,omitempty"` // "" the task object itself; "g" the expression g.Task(id); "m" tm.Get(id)
 }
 
 type DagOp struct {
-	Op   string `json:"op"` // add dep retries
+	Op   string `json:"op"` // add dep retries sort lookup (a bare g.Task / tm.Get call) tmadd (tm.Add(id, fn))
 	T    TRef   `json:"t"`
 	Deps []TRef `json:"deps,omitempty"`
 	N    int    `json:"n,omitempty"`
@@ -50,6 +51,8 @@ type DagCase struct {
 	Shared   bool             `json:"shared,omitempty"` // run a second graph sharing the Task objects concurrently
 	BigOut   bool             `json:"bigout,omitempty"` // odd tasks write more than 64 KiB per attempt
 	Names    bool             `json:"names,omitempty"`  // task IDs are words with separators, spaces, case twins instead of numbers
+	WithTM   bool             `json:"withtm,omitempty"` // a TaskMap is used (tmadd ops, "m" references) and handed to Validate
+	WithAPI  bool             `json:"withapi,omitempty"` // some *Task arguments are look-ups (g.Task / tm.Get)
 }
 
 // IDs handed to the library: the decimal number, or (Names) a word chosen so that IDs contain each other,
@@ -91,6 +94,9 @@ func (t TRef) proto() string {
 	if t.NoFn {
 		f = "0"
 	}
+	if t.Src != "" {
+		return fmt.Sprintf("%d:%s:%s", t.ID, f, t.Src)
+	}
 	return fmt.Sprintf("%d:%s", t.ID, f)
 }
 
@@ -108,6 +114,10 @@ func (c *DagCase) protoLines() []string {
 			out = append(out, l)
 		case "retries":
 			out = append(out, fmt.Sprintf("dag retries %s %d", op.T.proto(), op.N))
+		case "lookup":
+			out = append(out, "dag lookup "+op.T.proto())
+		case "tmadd":
+			out = append(out, "dag tmadd "+op.T.proto())
 		}
 	}
 	if c.Serial {
@@ -132,6 +142,34 @@ type iGraph struct {
 	order []int
 	v     map[int]*iVertex
 	errs  []string
+	tm     map[int]bool // TaskMap: id -> the task has a function
+	tmErrs []string
+}
+
+// eval - a *Task argument as the callee sees it: g.Task(id) is the registered task or an empty one (and an
+// error recorded in the graph), tm.Get(id) likewise against the TaskMap
+func (g *iGraph) eval(t TRef) TRef {
+	switch t.Src {
+	case "g":
+		if t.Nil {
+			return t
+		}
+		if _, ok := g.v[t.ID]; ok {
+			return TRef{ID: t.ID}
+		}
+		g.errs = append(g.errs, fmt.Sprintf("notfound:%d", t.ID))
+		return TRef{ID: t.ID, NoFn: true}
+	case "m":
+		if t.Nil {
+			return t
+		}
+		if f, ok := g.tm[t.ID]; ok {
+			return TRef{ID: t.ID, NoFn: !f}
+		}
+		g.tmErrs = append(g.tmErrs, fmt.Sprintf("notfound:%d", t.ID))
+		return TRef{ID: t.ID, NoFn: true}
+	}
+	return t
 }
 
 func (g *iGraph) addTask(t TRef) string {
@@ -165,9 +203,32 @@ func (g *iGraph) retrieveOrAdd(t TRef) (int, string) {
 }
 
 func intendedGraph(ops []DagOp) *iGraph {
-	g := &iGraph{v: map[int]*iVertex{}}
+	g := &iGraph{v: map[int]*iVertex{}, tm: map[int]bool{}}
 	for _, op := range ops {
+		// the arguments are evaluated before the call, left to right
 		switch op.Op {
+		case "add", "dep", "retries", "lookup":
+			op.T = g.eval(op.T)
+			if len(op.Deps) > 0 {
+				deps := make([]TRef, len(op.Deps))
+				for i, d := range op.Deps {
+					deps[i] = g.eval(d)
+				}
+				op.Deps = deps
+			}
+		}
+		switch op.Op {
+		case "tmadd":
+			if op.T.ID == 0 {
+				g.tmErrs = append(g.tmErrs, "id")
+			}
+			if op.T.NoFn {
+				g.tmErrs = append(g.tmErrs, fmt.Sprintf("fn:%d", op.T.ID))
+			}
+			if _, ok := g.tm[op.T.ID]; ok {
+				g.tmErrs = append(g.tmErrs, fmt.Sprintf("tmdup:%d", op.T.ID))
+			}
+			g.tm[op.T.ID] = !op.T.NoFn
 		case "add":
 			if e := g.addTask(op.T); e != "" {
 				g.errs = append(g.errs, e)
@@ -258,6 +319,45 @@ func (g *iGraph) canon() string {
 		parts = append(parts, fmt.Sprintf("%d[%s|%s|%d]", id, joinInts(v.children), joinInts(v.parents), v.retries))
 	}
 	return strings.Join(parts, ";")
+}
+
+// errClasses - the sentinel each entry of an *Errors value wraps, in order
+func errClasses(err error) []string {
+	if err == nil {
+		return nil
+	}
+	var es *dag.Errors
+	if !errors.As(err, &es) {
+		return []string{"other"}
+	}
+	out := []string{}
+	for _, e := range es.Errors {
+		switch {
+		case errors.Is(e, dag.ErrorTaskNil):
+			out = append(out, "nil")
+		case errors.Is(e, dag.ErrorTaskID):
+			out = append(out, "id")
+		case errors.Is(e, dag.ErrorTaskFn):
+			out = append(out, "fn")
+		case errors.Is(e, dag.ErrorTaskDependencyDuplicate):
+			out = append(out, "dup")
+		case errors.Is(e, dag.ErrorTaskNotFound):
+			out = append(out, "notfound")
+		case errors.Is(e, dag.ErrorTaskDuplicate):
+			out = append(out, "tmdup")
+		default:
+			out = append(out, "other")
+		}
+	}
+	return out
+}
+
+func classesOf(l []string) []string {
+	out := []string{}
+	for _, e := range l {
+		out = append(out, strings.SplitN(e, ":", 2)[0])
+	}
+	return out
 }
 
 func joinInts(l []int) string {
@@ -664,21 +764,50 @@ func runDagCase(c *DagCase, d *Driver) *DagResult {
 		}
 		return tk
 	}
+	var tmOfG *dag.TaskMap
 	build := func(name string) *dag.Graph {
 		g := dag.NewGraph(name)
 		g.TickerDuration = 20 * time.Microsecond
+		tm := dag.NewTaskMap()
+		if name == "g" {
+			tmOfG = tm
+		}
+		mk0 := mk
+		// a *Task argument: the object itself, or the expression g.Task(id) / tm.Get(id) evaluated now
+		mk := func(t TRef, opKey string) *dag.Task {
+			if !t.Nil {
+				switch t.Src {
+				case "g":
+					return g.Task(c.tname(t.ID))
+				case "m":
+					return tm.Get(c.tname(t.ID))
+				}
+			}
+			return mk0(t, opKey)
+		}
 		for opIdx, op := range c.Ops {
 			switch op.Op {
 			case "add":
 				g.AddTask(mk(op.T, fmt.Sprintf("%d.t", opIdx)))
 			case "dep":
+				// Go evaluates the arguments left to right before the call
+				t0 := mk(op.T, fmt.Sprintf("%d.t", opIdx))
 				deps := []*dag.Task{}
 				for j, dd := range op.Deps {
 					deps = append(deps, mk(dd, fmt.Sprintf("%d.d%d", opIdx, j)))
 				}
-				g.TaskDependsOn(mk(op.T, fmt.Sprintf("%d.t", opIdx)), deps...)
+				g.TaskDependsOn(t0, deps...)
 			case "retries":
 				g.TaskRetries(mk(op.T, fmt.Sprintf("%d.t", opIdx)), op.N)
+			case "lookup":
+				mk(op.T, fmt.Sprintf("%d.t", opIdx))
+			case "tmadd":
+				// the function of a task kept in the map is the instrumented one of that ID
+				var fn getoptions.CommandFn
+				if tk := mk0(TRef{ID: op.T.ID, NoFn: op.T.NoFn, Fresh: true}, fmt.Sprintf("%d.m", opIdx)); tk != nil {
+					fn = tk.Fn
+				}
+				tm.Add(c.tname(op.T.ID), fn)
 			case "sort":
 				// DepthFirstSort in the middle of the construction: checked against the calls made so far
 				pre := intendedGraph(c.Ops[:opIdx])
@@ -776,6 +905,24 @@ func runDagCase(c *DagCase, d *Driver) *DagResult {
 	}
 	if me := gf["errs"]; me != strings.Join(ig.errs, ";") {
 		res.Mismatches = append(res.Mismatches, fmt.Sprintf("construction errors: model %q intended %q", me, strings.Join(ig.errs, ";")))
+	}
+	if c.WithTM {
+		// Validate(tm): the TaskMap's errors first; compared entry by entry (class of each error, in order)
+		want := ig.errs
+		if len(ig.tmErrs) > 0 {
+			want = ig.tmErrs
+		}
+		got := errClasses(g.Validate(tmOfG))
+		if strings.Join(got, ";") != strings.Join(classesOf(want), ";") {
+			res.Violations = append(res.Violations, fmt.Sprintf("Validate(tm): expected %v, got %v", classesOf(want), got))
+		}
+		va, err := d.ask([]string{"dag validate 1"}, 1)
+		if err == nil && va[0] != "V errs="+strings.Join(want, ";") {
+			res.Mismatches = append(res.Mismatches, fmt.Sprintf("Validate(tm): model %q intended %q", va[0], strings.Join(want, ";")))
+		}
+	}
+	if got := errClasses(g.Validate(nil)); strings.Join(got, ";") != strings.Join(classesOf(ig.errs), ";") {
+		res.Violations = append(res.Violations, fmt.Sprintf("Validate(nil): expected %v, got %v", classesOf(ig.errs), got))
 	}
 	// 2. DepthFirstSort
 	cyc := len(ig.order) > 0 && ig.hasCycle()
@@ -1500,6 +1647,52 @@ func genDagCase(r *rand.Rand, id int, prop string) *DagCase {
 		c.CancelAt = r.Intn(n + 1)
 	}
 	c.Shared = r.Intn(8) == 0 && !messy && !cyclic
+	// the rest of the construction API: *Task arguments written as g.Task(id) (the README idiom: tasks added
+	// first, edges by look-up; a look-up of an ID that is not - or not yet - in the graph is a definition error),
+	// tasks kept in a TaskMap (tm.Add / tm.Get, duplicates, unknown IDs), Validate(tm)
+	if x := r.Intn(100); x < 22 {
+		conv := func(t *TRef, src string, p int) {
+			if !t.Nil && !t.Fresh && r.Intn(100) < p {
+				t.Src = src
+			}
+		}
+		src, p := "g", 25+r.Intn(60)
+		if x < 9 {
+			src, c.WithTM = "m", true
+			// the map is filled first, mostly with every task
+			var adds []DagOp
+			for i := 1; i <= n; i++ {
+				if r.Intn(12) > 0 {
+					adds = append(adds, DagOp{Op: "tmadd", T: TRef{ID: i}})
+				}
+			}
+			if r.Intn(4) == 0 {
+				bad := []DagOp{{Op: "tmadd", T: TRef{ID: 1 + r.Intn(n)}}, {Op: "tmadd", T: TRef{ID: 0}}, {Op: "tmadd", T: TRef{ID: 1 + r.Intn(n), NoFn: true}}}[r.Intn(3)]
+				pos := r.Intn(len(adds) + 1)
+				adds = append(adds[:pos], append([]DagOp{bad}, adds[pos:]...)...)
+			}
+			c.Ops = append(adds, c.Ops...)
+		}
+		for i := range c.Ops {
+			if c.Ops[i].Op == "tmadd" || c.Ops[i].Op == "sort" {
+				continue
+			}
+			if src == "g" && c.Ops[i].Op == "add" {
+				continue // AddTask(g.Task(id)) adds nothing new; the tasks themselves are added
+			}
+			conv(&c.Ops[i].T, src, p)
+			for j := range c.Ops[i].Deps {
+				conv(&c.Ops[i].Deps[j], src, p)
+			}
+		}
+		if r.Intn(3) == 0 {
+			pos := r.Intn(len(c.Ops) + 1)
+			op := DagOp{Op: "lookup", T: TRef{ID: 1 + r.Intn(n+1), Src: src}}
+			c.Ops = append(c.Ops[:pos], append([]DagOp{op}, c.Ops[pos:]...)...)
+		}
+		c.Shared = false
+		c.WithAPI = true
+	}
 	readd := func() {
 		// a task redefined with a new *Task object (same ID) somewhere in the history: the graphs
 		// sharing their tasks share the redefined object too
@@ -1523,6 +1716,10 @@ func genDagCase(r *rand.Rand, id int, prop string) *DagCase {
 		if r.Intn(3) == 0 {
 			c.CancelAt = r.Intn(n + 1)
 		}
+	}
+	if c.WithAPI {
+		// tasks made by tm.Add are private to each graph built from the history: no pair of graphs sharing them
+		c.Shared = false
 	}
 	return c
 }
